@@ -244,7 +244,7 @@ def st_user(draw):
         spec['d'] = [[k, draw(c13.st_value())] for k in draw(st.lists(st.sampled_from(['a', 'b', 'ö', 'k 4']), max_size=3, unique=True))]
         spec['d2'] = [[k, draw(c13.st_value())] for k in draw(st.lists(st.sampled_from(['a', 'z']), max_size=2, unique=True))]
     else:
-        spec['txt'] = ''.join(draw(st.lists(st.one_of(st.characters(exclude_categories=['Cs']), st.sampled_from(['\r\n', '\n', '\r', 'é', '日', 'abc'])), max_size=20)))
+        spec['txt'] = draw(st.sampled_from(['', '', '', '\ufeff', '\ufeff\ufeff', '\ufffe', '\x00', '\u2028', '\x1a'])) + ''.join(draw(st.lists(st.one_of(st.characters(exclude_categories=['Cs']), st.sampled_from(['\r\n', '\n', '\r', 'é', '日', 'abc'])), max_size=20)))
         spec['txt2'] = draw(st.text(max_size=5, alphabet=SAFE))
     return spec
 
@@ -490,7 +490,7 @@ def task_user(ctx, col, shard, n):
 LOCALE_SPECS = [
     {'f': 'user', 'kind': k, 'name': nm, 'fam': 'txt', 'asPath': ap, 'others': ['o.u'], 'txt': txt, 'txt2': 'zweite Fassung: äöü €\n'}
     for k in ('Array', 'Ragged') for nm, ap in (('notes.txt', False), ('lab-notes', True))      # (file NAMES stay ASCII: the C locale cannot encode others)
-    for txt in ('plain ascii\n', 'grüß dich\n', '日本語 text\r\nline 2', '€ \u2010 \U0001F600', 'caf\u00e9')
+    for txt in ('\ufeffstarts with U+FEFF', 'plain ascii\n', 'grüß dich\n', '日本語 text\r\nline 2', '€ \u2010 \U0001F600', 'caf\u00e9')
 ] + [
     {'f': 'user', 'kind': k, 'name': 'extra.json', 'fam': 'json', 'asPath': False, 'others': [],
      'd': [['a', {'t': 'str', 'v': 'é日本'}], ['ö', {'t': 'list', 'v': [{'t': 'str', 'v': '€'}, {'t': 'int', 'v': 1}]}]], 'd2': [['z', {'t': 'str', 'v': 'ü'}]]}
